@@ -62,6 +62,13 @@ func expandC18(_ *testing.T, seed uint64, tier string) []*core.Plan {
 			n = r.Range(4, 36)
 			p.Yield = r.Pick(2, 3, 4, 8)
 		}
+		if mode == 1 && r.Chance(1, 3) {
+			// the stores start out restored from a persisted session
+			// (NewPacketStoreWithPackets), some of the packets without an id
+			for i, k := 0, r.Range(1, 5); i < k; i++ {
+				p.Items = append(p.Items, core.Item{K: "op", S: "restore", A: r.Intn(2), B: storeIDs[r.Intn(len(storeIDs))], C: r.Intn(7), D: 201 + i})
+			}
+		}
 		for i := 0; i < n; i++ {
 			it := core.Item{K: "op", P: 1 + r.Intn(actors)}
 			it.S = []string{"save", "lookup", "delete", "all", "reset", "next"}[r.Weighted([]int{8, 6, 4, 3, 1, 2})]
@@ -380,7 +387,7 @@ func (m *storeModel) all(d int) string {
 // step applies the op to the model; returns the expected output.
 func (m *storeModel) step(it core.Item) string {
 	switch it.S {
-	case "save":
+	case "save", "restore":
 		if hasID(it.C) {
 			m.m[it.A][it.B] = pktStr(mkPacket(it.C, it.B, it.D))
 		}
@@ -430,11 +437,33 @@ func applyStore(s *session.MemorySession, it core.Item) string {
 	return ""
 }
 
-func runStoreSeq(p *core.Plan, res *core.Result, log *core.Log) {
+// restoredSession builds the session the plan starts from: the leading
+// "restore" items become the initial content of the two stores, handed to
+// NewPacketStoreWithPackets as a persisted session would; the model takes them
+// as saves. It returns the remaining items.
+func restoredSession(p *core.Plan, m *storeModel, res *core.Result) (*session.MemorySession, []core.Item) {
 	s := session.NewMemorySession()
+	var init [2][]packet.Generic
+	n := 0
+	for n < len(p.Items) && p.Items[n].S == "restore" {
+		it := p.Items[n]
+		init[it.A] = append(init[it.A], mkPacket(it.C, it.B, it.D))
+		m.step(it)
+		n++
+	}
+	if n > 0 {
+		s.Incoming = session.NewPacketStoreWithPackets(init[0])
+		s.Outgoing = session.NewPacketStoreWithPackets(init[1])
+		res.Count("restored_stores", 1)
+	}
+	return s, p.Items[n:]
+}
+
+func runStoreSeq(p *core.Plan, res *core.Result, log *core.Log) {
 	m := newStoreModel()
+	s, items := restoredSession(p, m, res)
 	saves := 0
-	for i, it := range p.Items {
+	for i, it := range items {
 		got := applyStore(s, it)
 		want := m.step(it)
 		log.Ev("%s -> %q", it.String(), got)
